@@ -244,12 +244,21 @@ func (s *MemoryStore) EnqueueBatch(items []Envelope) (int, error) {
 	activeCount := s.activeCountLocked()
 	activeDeliveredCount := s.activeDeliveredCountLocked()
 	needed := len(items)
+	// Capacity is decided before the items are looked at, as in Enqueue and in
+	// the SQLite store. With drop_oldest, select the victims first and evict
+	// them only once the whole batch is certain to be stored.
+	var victims []string
 	if s.maxDepth > 0 {
 		if s.dropPolicy != "drop_oldest" {
 			if activeCount+needed > s.maxDepth {
 				return 0, ErrQueueFull
 			}
 			if s.deliveredRetentionMaxAge > 0 && activeDeliveredCount+needed > s.maxDepth {
+				return 0, ErrQueueFull
+			}
+		} else if need := s.evictionsNeededLocked(needed); need > 0 {
+			victims = s.oldestQueuedIDsLocked(need)
+			if len(victims) < need {
 				return 0, ErrQueueFull
 			}
 		}
@@ -266,7 +275,7 @@ func (s *MemoryStore) EnqueueBatch(items []Envelope) (int, error) {
 			return 0, ErrEnvelopeExists
 		}
 		seenIDs[env.ID] = struct{}{}
-		if _, exists := s.items[env.ID]; exists {
+		if _, exists := s.items[env.ID]; exists && !containsString(victims, env.ID) {
 			return 0, ErrEnvelopeExists
 		}
 		if env.State == "" {
@@ -292,18 +301,6 @@ func (s *MemoryStore) EnqueueBatch(items []Envelope) (int, error) {
 		}
 		cpy := env
 		prepared = append(prepared, &cpy)
-	}
-
-	// Handle depth overflow with drop_oldest: select the victims first and
-	// evict them only once the whole batch is certain to be stored.
-	var victims []string
-	if s.maxDepth > 0 {
-		if need := s.evictionsNeededLocked(len(prepared)); need > 0 {
-			victims = s.oldestQueuedIDsLocked(need)
-			if len(victims) < need {
-				return 0, ErrQueueFull
-			}
-		}
 	}
 
 	if pressure := s.memoryPressureStatusLocked(); pressure.Active {
